@@ -203,6 +203,7 @@ struct DNode {  // description node (own representation)
   }
 };
 struct TNode {  // user tree / resolved tree
+  bool section = false;  // declared with children: its own text is not an option value and is not compared
   std::string name, value;
   std::map<std::string, std::string> attr;
   std::vector<TNode> kids;
@@ -341,6 +342,7 @@ static void resolve(const DNode &D, const TNode *U, Oracle &o, std::vector<TNode
       if (!D.kid(uc.name)) o.undeclared.insert(uc.name);
   TNode T;
   T.name = D.name;
+  T.section = !D.kids.empty();
   if (D.kids.empty()) {
     if (U)
       T.value = U->value;
@@ -386,11 +388,11 @@ static void resolve(const DNode &D, const TNode *U, Oracle &o, std::vector<TNode
 // leaf lines "path=value" (for messages) and a canonical form with unordered siblings (for the comparison)
 static void flatten(const TNode &t, const std::string &path, std::multiset<std::string> &out) {
   std::string p = path.empty() ? t.name : path + "." + t.name;
-  if (t.kids.empty()) out.insert(p + "=" + quote(trim(t.value)));
+  if (t.kids.empty()) out.insert(t.section ? p + "{}" : p + "=" + quote(trim(t.value)));
   for (auto &k : t.kids) flatten(k, p, out);
 }
 static std::string canon(const TNode &t) {
-  if (t.kids.empty()) return t.name + "=" + quote(trim(t.value));
+  if (t.kids.empty()) return t.section ? t.name + "{}" : t.name + "=" + quote(trim(t.value));
   std::vector<std::string> c;
   for (auto &k : t.kids) c.push_back(canon(k));
   std::sort(c.begin(), c.end());
@@ -404,6 +406,11 @@ static TNode from_result(const Property &p) {
   t.value = p.value();
   for (const Property &c : p) t.kids.push_back(from_result(c));
   return t;
+}
+static void mark_sections(TNode &t, const DNode &D) {
+  t.section = !D.kids.empty();
+  for (auto &k : t.kids)
+    if (const DNode *dk = D.kid(k.name)) mark_sections(k, *dk);
 }
 static void to_property(const TNode &t, Property &parent) {
   Property &p = parent.add(t.name, t.value);
@@ -471,6 +478,7 @@ static Result run_options(const json &c) {
   try {
     Property res = handler.ProcessUserInput(uprop, C.name);
     got = from_result(res.get("options." + C.name));
+    mark_sections(got, C.root);
   } catch (const std::runtime_error &e) {
     threw = true;
     what = e.what();
